@@ -656,6 +656,58 @@ def check_forward_roles(ck, tu, family):
                 ck.violation("FORWARD-ROLES", fn.qname, "%s/%d:min_fields" % (family, len(fn.params)), "the result is not padded up to min_fields", fn.loc)
 
 
+def check_replace(ck, tu):
+    """replace_all: after an occurrence at `thispos` was replaced, the scan resumes exactly behind what was written there
+    (thispos + length written); resuming further right skips bytes that were never examined, resuming further left can
+    re-match inside the replacement"""
+    n = 0
+    for fn in [f for f in tu.functions if f.qname == "tlx::replace_all" and f.body is not None]:
+        loops = [l for l in match.loops_in(fn.body) if l["k"] == "WhileStmt"]
+        if len(loops) != 1:
+            raise ir.AnalysisBroken("%s: scan loop not found" % fn.loc)
+        cond, body = kids(loops[0])
+        # thispos = haystack.find(needle..., lastpos...)
+        asg = [z for z in ir.walk(cond) if match.binop(z, ("=",)) and z["k"] == "BinaryOperator"]
+        finds = [z for z in ir.walk(cond) if "callee" in z and z["callee"]["name"] == "find"]
+        if len(asg) != 1 or len(finds) != 1:
+            raise ir.AnalysisBroken("%s: `thispos = x.find(...)` not found in the loop condition" % fn.loc)
+        thispos = ref_of(match.binop(asg[0], ("=",))[1])
+        fargs = kids(finds[0])[1:]
+        lastpos = ref_of(fargs[1]) if len(fargs) > 1 else None
+        # what is written at thispos
+        written = None
+        for z in ir.walk(body):
+            if "callee" in z and z["callee"]["name"] == "replace" and z.get("member_call") and len(kids(z)) >= 5 and ref_of(kids(z)[1]) == thispos:
+                written = ("len", kids(z)[4])
+            b = match.binop(z, ("=",))
+            if b and match.index_parts(b[1]) and ref_of(match.index_parts(b[1])[1]) == thispos:
+                written = ("one", None)
+        resume = None
+        for z in ir.walk(body):
+            b = match.binop(z, ("=",)) if z["k"] == "BinaryOperator" else None
+            if b and lastpos is not None and ref_of(b[1]) == lastpos:
+                resume = b[2]
+        sigs = "replace_all(%s)" % ",".join(p["ty"].replace("std::", "").replace("tlx::", "")[:22] for p in fn.params)
+        if written is None or resume is None or lastpos is None:
+            raise ir.AnalysisBroken("%s: write at thispos / resume position not found" % fn.loc)
+        n += 1
+        pl = match.binop(resume, ("+",))
+        good = False
+        if pl and ref_of(pl[1]) == thispos:
+            if written[0] == "one":
+                good = const_int(pl[2]) == 1
+            else:
+                good = match.same_expr(pl[2], written[1])
+        if not good:
+            ck.violation("REPLACE-RESUME", fn.qname, sigs, "after replacing the occurrence at thispos the scan resumes at %s, but %s written there: "
+                         "with an empty replacement (deletion) the byte right behind the occurrence is skipped, so an adjacent second occurrence survives"
+                         % (dtable.describe(resume), "one character was" if written[0] == "one" else "%s characters were" % dtable.describe(written[1])),
+                         fn.nloc(resume))
+        else:
+            ck.ok("REPLACE-RESUME", sigs, "resumes at thispos + length written")
+    return n
+
+
 def run(ck):
     ck.explanation = (
         "Writer/reader agreement decided from tables and structure: the base64 alphabet is RFC 4648 and the decoder table inverts it, padding and "
@@ -677,6 +729,8 @@ def run(ck):
     check_forward_roles(ck, tu_v, "split_view")
     check_quote(ck, ir.extract("tlx/string/join_quoted.cpp"), ir.extract("tlx/string/split_quoted.cpp"))
     check_icase(ck, {f: ir.extract("tlx/string/%s.cpp" % f) for f in ("compare_icase", "equal_icase", "less_icase")})
+    ck.require(check_replace(ck, ir.extract("tlx/string/replace.cpp")) == 4, "expected the four replace_all overloads")
+    ck.floor("REPLACE-RESUME", 4)
     ck.floor("B64-TABLES", 1)
     ck.floor("B64-SKIP", 1)
     ck.floor("B64-BITS", 1)
